@@ -272,10 +272,13 @@ func stateOf(h http.Header) *e2eState {
 	return v.(*e2eState)
 }
 
+// appKeys: application keys of the scenarios that do not start with "X-" (MC_Wire TrlSets)
+var appKeys = map[string]bool{"Trace-Id": true, "Tier": true, "Timing-Bin": true, "Retry-Trailer": true}
+
 func appHeaders(h http.Header) map[string][]string {
 	out := map[string][]string{}
 	for k, v := range h {
-		if strings.HasPrefix(k, "X-") && k != "X-Verif-Sid" && k != "X-Verif-Call" && k != "X-Verif-Seen" {
+		if (strings.HasPrefix(k, "X-") && k != "X-Verif-Sid" && k != "X-Verif-Call" && k != "X-Verif-Seen") || appKeys[k] {
 			out[k] = append([]string(nil), v...)
 		}
 	}
